@@ -3,7 +3,8 @@ from lib import *  # noqa
 import C10
 import C03
 
-TECHNIQUE = "buffer-tag typestate over the read loop (value-set + typestate dataflow), edge-cut gates for complete-frame delivery, provenance of the consumed byte count in the flush loop, guard-fact checks of the UDP synthetic framing and zero-length/TC handling"
+TECHNIQUE = ("buffer-tag typestate over the read loop (value-set + typestate dataflow), edge-cut gates for complete-frame delivery, provenance of the consumed byte count in the flush loop, guard-fact checks of the UDP synthetic framing and zero-length/TC handling"
+             ", must-set of the byte-count out-parameter, exact guard on the TCP re-read decision, reachability 'received bytes -> teardown' in the read loop, failure-path restore of the out buffer (must-pass-through)")
 LEVEL_TEXT = ("static: decides the framing protocol in both directions on every path: (read) after tagging the input buffer an incomplete frame is "
               "rolled back and never delivered, a complete one is delivered as exactly [tag+2, tag+2+len) and the tag is cleared; (UDP) each datagram "
               "gets a placeholder length that is back-patched with the received count and removed again when the read fails, and the TCP arm never "
